@@ -610,7 +610,7 @@ static void iauth_xquery_config_service(const char *name, const char *type)
         for (ii = 0; ii < iauth_xquery_services.used; ++ii) {
             if (!iauth_xquery_services.vec[ii]) {
                 iauth_xquery_services.vec[ii] = srv;
-                return;
+                break;
             }
         }
 
